@@ -184,9 +184,17 @@ def r_dispatch(run, F, rule="R-DISPATCH"):
             continue
         # the match whose scrutinee reads the tag
         m = None
+        tag_locals = set()
         for x in walk(b["body"]):
-            if x.get("k") == "match" and x.get("src") == "normal" and any((callee(y) or "").endswith("::read_tag") for y in walk(x["scrut"])):
-                m = x
+            if x.get("k") == "let" and x["pat"].get("k") == "bind" and "init" in x and any((callee(y) or "").endswith("::read_tag") for y in walk(x["init"])):
+                tag_locals.add(x["pat"]["id"])
+        for x in walk(b["body"]):
+            if x.get("k") == "match" and x.get("src") == "normal":
+                sc = unwrap(x["scrut"])
+                direct = any((callee(y) or "").endswith("::read_tag") for y in walk(x["scrut"]))
+                via_let = sc.get("k") == "path" and sc["res"].get("r") == "local" and sc["res"]["id"] in tag_locals
+                if direct or via_let:
+                    m = x
         if m is None:
             run.ob(rule, "%s: tag dispatch found" % pty.split("::")[-1], False, "no match on read_tag()", site(b), key="%s|%s|no-dispatch" % (rule, fn))
             continue
